@@ -222,7 +222,8 @@ class Renderer:
             L.append(f"    {o['name']} = Port.input({self.ty(o)})")
         for o in sp["outputs"]:
             d = o.get("default")
-            L.append(f"    {o['name']} = Port.output({self.ty(o)}" + (f", default={self.dflt(o)}" if d is not None else "") + ")")
+            L.append(f"    {o['name']} = Port.output({self.ty(o)}" + (f", default={self.dflt(o)}" if d is not None else "")
+                     + (", noreset=True" if o.get("noreset") else "") + ")")
         for o in sp.get("sigs", []):
             L.append(f"    x_{o['name']} = Port.output({self.ty(o)})")
         L.append("    def architecture(self):")
@@ -245,6 +246,14 @@ class Renderer:
             if ctx.get("reset"):
                 r = ctx["reset"]
                 rst = f", std.Reset(self.rst, active_low={bool(r.get('active_low'))}, is_async={bool(r.get('async'))})"
+                if r.get("on_reset"):
+                    L.append("        def on_rst():")
+                    if nonlocal_line:
+                        L.append(nonlocal_line)
+                    L += self.block(r["on_reset"], 3)
+                    rst += ", on_reset=on_rst"
+            if ctx.get("step_cond") is not None:
+                rst += f", step_cond=lambda: {self.rx(ctx['step_cond'])}"
             L.append(f"        @std.sequential(std.Clock(self.clk){rst})")
             L.append(f"        {'async ' if t == 'coro' else ''}def proc():")
         elif t == "comb":
